@@ -1742,6 +1742,24 @@ class MeshRegion:
                 next_region.poloidal_distance.corners[:, :] = (
                     region.poloidal_distance.corners[:, -1, numpy.newaxis]
                 )
+                # The distances of next_region's contours are measured from the first
+                # point of their FineContours, which is not the contour's start point
+                # if the FineContour was extended at its lower end: count from startInd,
+                # as for the first region of the group
+                for i in range(next_region.nx):
+                    c = next_region.contours[2 * i + 1]
+                    d_start = c.get_distance(psi=self.meshParent.equilibrium.psi)[
+                        c.startInd
+                    ]
+                    next_region.poloidal_distance.centre[i, :] -= d_start
+                    next_region.poloidal_distance.ylow[i, :] -= d_start
+                for i in range(next_region.nx + 1):
+                    c = next_region.contours[2 * i]
+                    d_start = c.get_distance(psi=self.meshParent.equilibrium.psi)[
+                        c.startInd
+                    ]
+                    next_region.poloidal_distance.xlow[i, :] -= d_start
+                    next_region.poloidal_distance.corners[i, :] -= d_start
                 region = next_region
 
         # Save total poloidal distance in core
